@@ -376,7 +376,10 @@ def as_tensor(expressions, indices=None):
         # Special case for simplification as_tensor(A[ii], ii) -> A
         if isinstance(expressions, Indexed):
             A, ii = expressions.ufl_operands
-            if indices.indices() == ii.indices():
+            # Only valid if A itself does not depend on the bound indices (see ComponentTensor.__new__)
+            if indices.indices() == ii.indices() and not (
+                {i.count() for i in ii} & set(A.ufl_free_indices)
+            ):
                 return A
 
         # Make a tensor from given scalar expression with free indices
